@@ -82,7 +82,7 @@ _QF = {'tag:ts:no-group': 2, 'tag:expr:row-tuples': 2, 'tag:update:on-keys': 2, 
        'tag:create:or-replace': 2, 'tag:join:sub-second-third': 3, 'tag:join:implicit': 3, 'tag:join:4': 3,
        'tag:expr:in-operand': 3, 'tag:expr:func-from-for': 3, 'tag:expr:cast-colons': 2, 'tag:expr:window-frame': 3,
        'tag:expr:func-distinct': 2, 'tag:cte:in-dml': 10, 'tag:cte:in-sub': 3, 'tag:cte:setop-body': 4,
-       'tag:having:in-between': 2, 'tag:pred:using': 4}
+       'tag:having:in-between': 2, 'tag:pred:using': 4, 'tag:cte:name-not-defined': 6}
 FLOORS = {'quick': dict(_Q, **_QF), 'thorough': dict({k: 10 * v for k, v in _Q.items()}, **_QF)}
 N = {'quick': 520, 'thorough': 7800}
 MAX_OPS = {'quick': 8, 'thorough': 20}
@@ -833,6 +833,18 @@ def fixed_histories():
                                                 {'op': 'exec', 'v': v2[:n]}]})
             out.append({'catalog': cat, 'ops': [prep, {'op': 'exec', 'v': v1}, {'op': 'prepare', 'same': True},
                                                 {'op': 'info'}, {'op': 'exec', 'v': v2[:n]}]})
+    # a table reference spelled like the CTE of the statement executed before, in a statement that does not define it
+    # (the results of common table expressions must not outlive their plan)
+    for cat in ('names', 'dicts', 'default-int1'):
+        for text_ in ('SELECT w1.c1 FROM w1 JOIN int2.t3 AS x3 ON x3.a = w1.c1 WHERE w1.c2 = ?:where',
+                      'SELECT x.a FROM int2.t3 AS x JOIN w1 ON x.a = w1.c1 WHERE x.d = ?:where',
+                      'SELECT c1 FROM w1 WHERE c2 = ?:where AND c1 > ?:where',
+                      'SELECT a FROM int1.t1 WHERE a IN ( SELECT c1 FROM w1 WHERE c2 = ?:sub-where/where ) AND b = ?:where'):
+            parts, tags = more.T(text_, ['cte:name-not-defined'])
+            v1, _ = more.fixed_values(parts, 101)
+            out.append({'catalog': cat, 'ops': [{'op': 'prepare', 't': holes.merge_text(cte_sel), 'tags': ['cte']},
+                                                {'op': 'exec', 'v': [1, 2]},
+                                                {'op': 'prepare', 't': parts, 'tags': tags}, {'op': 'exec', 'v': v1}]})
     # the shapes of c12_more (hunting wave): 2 history forms each
     for cat, lst in (('names', more.EXTRA + more.UNPLANNED), ('dicts', more.EXTRA + more.UNPLANNED),
                      ('predictor', more.EXTRA_PREDICTOR), ('ts', more.TS + more.EXTRA_PREDICTOR)):
@@ -854,7 +866,8 @@ def run_shard(col, k, nshards, tier, seed):
     col.exhaustive_parts.append('fixed list of histories: set-operation chains (flat / parenthesised pair left / right), '
                                 'WITH before and on a set operation, UPDATE SET naming a column twice, x 3 catalogs x 4 '
                                 'history forms; the lists EXTRA / EXTRA_PREDICTOR / UNPLANNED / TS of vf/gens/c12_more.py x 2 '
-                                'catalogs x 2 history forms')
+                                'catalogs x 2 history forms; 4 statements naming the CTE of the statement executed before without defining it '
+                                'x 3 catalogs')
     hyp.explore(col, histories(MAX_OPS[tier], MAX_DEPTH[tier]), judge, N[tier], seed,
                 shrink_key=lambda r: (r['kind'], r['site'][:40]))
     total = col.evaluations
